@@ -648,8 +648,7 @@ theorem numRoundtrip (n : Nat) : numOf (natDigits n) = some n := by
   · rw [hv]
 
 
-/-- the one unproved ingredient of the round trip: `\uXXXX`/escape decoding inverts `escStr` on strings without a
-surrogate pair (pure arithmetic on hexadecimal digits and UTF-16 surrogates). -/
+/-- `\uXXXX`/escape decoding inverts `escStr` on strings without a surrogate pair (proved below: `decodeEsc`). -/
 def DecodeEsc : Prop := ∀ s : Str, strOk s = true → decode (escStr s) = some s
 
 
@@ -747,6 +746,140 @@ theorem parseToks_toksV (hs : DecodeEsc) (v : J) (hok : J.ok v = true) :
   have := pVal_toksV hs v ((toksV v).length + 1) [] hok (by omega)
   rw [List.append_nil] at this
   rw [this]
+
+
+
+/-! ## `decode` inverts `escStr` -/
+
+theorem hexVal_hexDigit (k : Nat) : hexVal (hexDigit k) = some (k % 16) := by
+  unfold hexDigit hexVal
+  split
+  · rw [if_pos (by omega)]; congr 1; omega
+  · rw [if_neg (by omega), if_pos (by omega)]; congr 1; omega
+
+theorem hex4_uEsc (u : Nat) (h : u < 65536) :
+    hex4 (hexDigit (u / 4096)) (hexDigit (u / 256)) (hexDigit (u / 16)) (hexDigit u) = some u := by
+  simp only [hex4, hexVal_hexDigit]
+  congr 1; omega
+
+theorem decodeF_plain {c : Nat} (h : c ≠ 92) (n : Nat) (rest : Str) :
+    decodeF (n + 1) (c :: rest) = (decodeF n rest).map (c :: ·) := by
+  rw [decodeF]
+  all_goals simp_all
+
+theorem decodeF_simple {l x : Nat} (hl : l ≠ 117) (h : simpleEsc l = some x) (n : Nat) (rest : Str) :
+    decodeF (n + 1) (92 :: l :: rest) = (decodeF n rest).map (x :: ·) := by
+  rw [decodeF]
+  all_goals simp_all
+
+
+/-- the text does not start with the escape of a low surrogate (and if it starts with `\u`, four hex digits follow). -/
+def NoLowEsc (rest : Str) : Prop :=
+  ∀ e f g h r, rest = 92 :: 117 :: e :: f :: g :: h :: r →
+    ∃ u2, hex4 e f g h = some u2 ∧ ¬(56320 ≤ u2 ∧ u2 ≤ 57343)
+
+theorem decodeF_uEsc (u : Nat) (hu : u < 65536) (n : Nat) (rest : Str)
+    (h : ¬(55296 ≤ u ∧ u ≤ 56319) ∨ NoLowEsc rest) :
+    decodeF (n + 1) (uEsc u ++ rest) = (decodeF n rest).map (u :: ·) := by
+  simp only [uEsc, List.cons_append, List.nil_append]
+  rw [decodeF]
+  simp only [hex4_uEsc u hu]
+  split
+  · rename_i hh
+    rcases h with h | h
+    · exact absurd hh h
+    · split
+      · rename_i e f g h' r
+        obtain ⟨u2, h2, h3⟩ := h e f g h' r rfl
+        simp only [h2]
+        rw [if_neg h3]
+      · rfl
+  · rfl
+
+theorem decodeF_astral (c : Nat) (h1 : 65536 ≤ c) (h2 : c < 1114112) (n : Nat) (rest : Str) :
+    decodeF (n + 1) (uEsc (55296 + ((c - 65536) / 1024) % 1024) ++ uEsc (56320 + (c - 65536) % 1024) ++ rest)
+      = (decodeF n rest).map (c :: ·) := by
+  have e1 : uEsc (55296 + ((c - 65536) / 1024) % 1024) ++ uEsc (56320 + (c - 65536) % 1024) ++ rest
+      = uEsc (55296 + ((c - 65536) / 1024) % 1024) ++ (uEsc (56320 + (c - 65536) % 1024) ++ rest) := by simp
+  rw [e1]
+  generalize hhi : 55296 + ((c - 65536) / 1024) % 1024 = hi
+  generalize hlo : 56320 + (c - 65536) % 1024 = lo
+  have hhi' : 55296 ≤ hi ∧ hi ≤ 56319 := by omega
+  have hlo' : 56320 ≤ lo ∧ lo ≤ 57343 := by omega
+  simp only [uEsc, List.cons_append, List.nil_append]
+  rw [decodeF]
+  simp only [hex4_uEsc hi (by omega), hex4_uEsc lo (by omega)]
+  rw [if_pos hhi', if_pos hlo']
+  have : 65536 + (hi - 55296) * 1024 + (lo - 56320) = c := by omega
+  rw [this]
+
+
+theorem noLowEsc_escStr (s : Str) (h : ∀ b t, s = b :: t → ¬(56320 ≤ b ∧ b ≤ 57343)) : NoLowEsc (escStr s) := by
+  cases s with
+  | nil => intro e f g h' r heq; simp [escStr] at heq
+  | cons b t =>
+    have hb := h b t rfl
+    intro e f g h' r heq
+    simp only [escStr] at heq
+    unfold escChar at heq
+    repeat' split at heq
+    all_goals try (simp at heq; done)
+    · rename_i h1 h2 h3 h4 h5 h6 h7 h8
+      simp only [List.cons_append, List.nil_append, List.cons.injEq] at heq
+      omega
+    · rename_i hlt
+      simp only [uEsc, List.cons_append, List.nil_append, List.cons.injEq, true_and] at heq
+      obtain ⟨rfl, rfl, rfl, rfl, _⟩ := heq
+      exact ⟨b, hex4_uEsc b hlt, hb⟩
+    · simp only [uEsc, List.cons_append, List.nil_append, List.cons.injEq, true_and] at heq
+      obtain ⟨rfl, rfl, rfl, rfl, _⟩ := heq
+      exact ⟨_, hex4_uEsc _ (by omega), by omega⟩
+
+theorem escChar_length_pos (c : Nat) : 0 < (escChar c).length := by
+  unfold escChar
+  repeat' split
+  all_goals simp [uEsc]
+
+theorem decodeF_escChar (c : Nat) (hlt : c < 1114112) (m : Nat) (rest : Str)
+    (h : ¬(55296 ≤ c ∧ c ≤ 56319) ∨ NoLowEsc rest) :
+    decodeF (m + 1) (escChar c ++ rest) = (decodeF m rest).map (c :: ·) := by
+  unfold escChar
+  repeat' split
+  all_goals first
+    | (subst c; exact decodeF_simple (by decide) (by decide) m rest)
+    | (rename_i h2 _ _ _ _ _ _; exact decodeF_plain h2 m rest)
+    | (rename_i h9; exact decodeF_uEsc c h9 m rest h)
+    | exact decodeF_astral c (by omega) hlt m rest
+
+theorem decodeF_escStr : ∀ (s : Str), strOk s = true → ∀ n, (escStr s).length ≤ n → decodeF n (escStr s) = some s := by
+  intro s
+  induction s with
+  | nil => intro _ n _; cases n <;> simp [escStr, decodeF]
+  | cons c s ih =>
+    intro hok n hlen
+    have hfacts : c < 1114112 ∧ strOk s = true ∧
+        ((55296 ≤ c ∧ c ≤ 56319) → ∀ b t, s = b :: t → ¬(56320 ≤ b ∧ b ≤ 57343)) := by
+      cases s with
+      | nil => simp [strOk] at hok ⊢; exact hok
+      | cons b t =>
+        simp only [strOk, Bool.and_eq_true, Bool.not_eq_true', Bool.and_eq_false_iff, decide_eq_true_eq,
+          decide_eq_false_iff_not] at hok
+        refine ⟨hok.1.2, hok.2, ?_⟩
+        intro hh b' t' e
+        injection e with e1 e2
+        subst e1
+        omega
+    obtain ⟨hlt, hs, hpair⟩ := hfacts
+    simp only [escStr, List.length_append] at hlen ⊢
+    have hpos := escChar_length_pos c
+    obtain ⟨m, rfl⟩ : ∃ m, n = m + 1 := ⟨n - 1, by omega⟩
+    rw [decodeF_escChar c hlt m _ (by
+        by_cases hh : 55296 ≤ c ∧ c ≤ 56319
+        · exact Or.inr (noLowEsc_escStr s (hpair hh))
+        · exact Or.inl hh), ih hs m (by omega)]
+    rfl
+
+theorem decodeEsc : DecodeEsc := fun s hok => decodeF_escStr s hok _ (Nat.le_refl _)
 
 
 end Paroxy.JsonText
